@@ -269,6 +269,15 @@ func c16Atoms() []c16Atom {
 	rng(`\x7f-\x7f`, 0x7f, 0x7f, never, all)
 	rng(`\x00-\x00`, 0, 0, never, all)
 	rng(`\x3f-\x40`, 0x3f, 0x40, never, all) // the 64-bit word boundary inside the bitmap
+	// "everything but one run of characters" written as two ranges (a single atom here so that it meets the
+	// categories in the pair menu): the canonical form of such a class is special-cased together with categories
+	gap := func(text string, lo, hi rune) {
+		out = append(out, c16Atom{text: text, kind: "range", ends: []rune{lo - 1, lo, hi, hi + 1}, in: notIC,
+			def: fixed(c16Or(c16Range(0, lo-1), c16Range(hi+1, 0x10FFFF))), menu: notIC})
+	}
+	gap("\\x00-\\x20\\x7f-"+string(rune(0x10FFFF)), 0x21, 0x7e) // all but the printable ASCII characters
+	gap("\\x00-@\\x7b-"+string(rune(0x10FFFF)), 'A', 'z')       // all but A..z (both ends letters, the middle not)
+	gap("\\x00-/:-"+string(rune(0x10FFFF)), '0', '9')           // all but the ASCII digits
 	// ---- shorthands
 	sh := func(text string, neg bool, def func(m c16Mode) c16Pred) {
 		d := def
